@@ -10,6 +10,8 @@ var __c19 = (function () {
       S = String, M_min = Math.min, M_trunc = Math.trunc, TE = TypeError, ObjProto = Object.prototype, ArrProto = Array.prototype,
       nativeStringify = JSON.stringify, nativeParse = JSON.parse, SyntaxErr = SyntaxError, RangeErr = RangeError;
   var charCodeAt = String.prototype.charCodeAt, substring = String.prototype.substring;
+  // append as an own data property (CreateDataProperty): a test may have put accessors on Array.prototype
+  function push(a, x) { R_defProp(a, a.length, { value: x, writable: true, enumerable: true, configurable: true }); }
   function cc(s, i) { return R_apply(charCodeAt, s, [i]); }
   // internal-slot test ([[NumberData]] etc.) supplied by the Go side (ClassName / ExportType: no script-visible side effects;
   // calling Number.prototype.valueOf on a non-number would format the receiver into goja's error message, which is observable)
@@ -71,7 +73,7 @@ var __c19 = (function () {
           if (item !== undefined) {
             var dup = false;
             for (var q = 0; q < PropertyList.length; q++) if (PropertyList[q] === item) dup = true;
-            if (!dup) PropertyList[PropertyList.length] = item;
+            if (!dup) push(PropertyList, item);
           }
         }
       }
@@ -111,7 +113,7 @@ var __c19 = (function () {
     }
     function enter(value) {
       for (var i = 0; i < stack.length; i++) if (stack[i] === value) throw new TE("Converting circular structure to JSON");
-      stack[stack.length] = value;
+      push(stack, value);
     }
     function obj(value) {                              // SerializeJSONObject
       enter(value);
@@ -121,7 +123,7 @@ var __c19 = (function () {
       var partial = [];
       for (var i = 0; i < K.length; i++) {
         var P = K[i], strP = prop(P, value);
-        if (strP !== undefined) partial[partial.length] = quote(P) + (gap !== "" ? ": " : ":") + strP;
+        if (strP !== undefined) push(partial, quote(P) + (gap !== "" ? ": " : ":") + strP);
       }
       var fin;
       if (partial.length === 0) fin = "{}";
@@ -138,7 +140,7 @@ var __c19 = (function () {
       var partial = [], len = lengthOf(value);
       for (var i = 0; i < len; i++) {
         var s = prop(S(i), value);
-        partial[partial.length] = s === undefined ? "null" : s;
+        push(partial, s === undefined ? "null" : s);
       }
       var fin;
       if (partial.length === 0) fin = "[]";
@@ -232,7 +234,7 @@ var __c19 = (function () {
     var r;
     try {
       r = nativeParse(text, function (k, v) {
-        calls[calls.length] = hexOf(k);
+        push(calls, hexOf(k));
         for (var i = 0; i < D.length; i++) if (D[i] === k) return undefined;
         for (var j = 0; j < Z.length; j++) if (Z[j] === k) return null;
         return v;
